@@ -608,6 +608,8 @@ structure Repaired (cfg : Cfg) : Prop where
 theorem repaired_repaired (fuel : Nat) : Repaired (Cfg.repaired fuel) := ⟨rfl, rfl, rfl, rfl, rfl, rfl⟩
 /-- the tree after the four `fix:` commits (without the replace pre-check F7) -/
 theorem sixFixes_repaired (fuel : Nat) : Repaired (Cfg.sixFixes fuel) := ⟨rfl, rfl, rfl, rfl, rfl, rfl⟩
+/-- /repo at 02da358 and later (F1–F7) -/
+theorem head_repaired (fuel : Nat) : Repaired (Cfg.head fuel) := ⟨rfl, rfl, rfl, rfl, rfl, rfl⟩
 
 /-- what the property asks of one operation: accepted ⇒ the invariant holds afterwards;
 rejected ⇒ nothing changed (a `RecursionError` from Python's recursion limit set aside) -/
@@ -1542,7 +1544,7 @@ theorem newNode_shape {cfg : Cfg} (hr : Repaired cfg) {t : Tree} (h : WFTree t) 
     {np : Option Nat} (hp : t.parent c = none) {t1 : Tree} (heq : newNode cfg t c l np = (t1, .ok)) :
     WFTree (fresh t c l) ∧
     (t1 = fresh t c l ∨
-      ∃ p l', (t.kind p).isComposite = true ∧ t1 = adopt (fresh t c l) p c l') := by
+      ∃ p l', np = some p ∧ (t.kind p).isComposite = true ∧ t1 = adopt (fresh t c l) p c l') := by
   simp only [newNode] at heq
   split at heq
   · cases heq
@@ -1568,7 +1570,7 @@ theorem newNode_shape {cfg : Cfg} (hr : Repaired cfg) {t : Tree} (h : WFTree t) 
         cases e <;> first | exact absurd rfl hne | (simp at heq)
       · rw [he] at heq
         simp only [Prod.mk.injEq] at heq
-        exact ⟨p, l', hcomp, heq.1.symm⟩
+        exact ⟨p, l', rfl, hcomp, heq.1.symm⟩
       · exfalso
         generalize setParent cfg (fresh t c l) c (some p) = r at hrec heq
         obtain ⟨t4, e⟩ := r
@@ -1638,7 +1640,7 @@ theorem newNodeFail_spec {cfg : Cfg} (hr : Repaired cfg) {t : Tree} (h : WFTree 
           (if cfg.ctorRollback then ctorRelease cfg t t1 c else t1, .setupError) := by
         simp only [newNodeFail, hnn]
       have hfin : ctorRelease cfg t t1 c = t := by
-        rcases hshape with e | ⟨p, l', hcomp, e⟩
+        rcases hshape with e | ⟨p, l', _, hcomp, e⟩
         · rw [e]; exact ctorRelease_fresh cfg l hp
         · rw [e] at hw1 ⊢; exact ctorRelease_adopt cfg h l l' hp h0 hw1 hcomp
       rw [hval]
@@ -1649,9 +1651,165 @@ theorem newNodeFail_spec {cfg : Cfg} (hr : Repaired cfg) {t : Tree} (h : WFTree 
       · simp only [h8, if_true, hfin]
     · have hval : newNodeFail cfg t c l np = (t, e) := by
         simp only [newNodeFail, hnn]
-        cases e <;> first | exact absurd rfl he | rfl
       rw [hval]
       exact ⟨fun _ => h, he, fun _ _ => rfl⟩
+
+/-! ### `Workflow(label, *nodes)` -/
+
+theorem adoptAll_wf {cfg : Cfg} (hr : Repaired cfg) (c : Nat) :
+    ∀ (kids : List Nat) (t : Tree) (log : List (Nat × Str)), WFTree t →
+      (adoptAll cfg c t log kids).2.2 ≠ .recursionError → WFTree (adoptAll cfg c t log kids).1 := by
+  intro kids
+  induction kids with
+  | nil => intro t log h _; exact h
+  | cons k r ih =>
+    intro t log h hrec
+    have g := addChild_good hr h c k none none
+    simp only [adoptAll] at hrec ⊢
+    cases hres : addChild cfg t c k none none with
+    | mk t1 e =>
+      rw [hres] at g
+      cases e with
+      | ok =>
+        simp only [hres] at hrec ⊢
+        exact ih _ _ (g.1 rfl) hrec
+      | _ =>
+        simp only [hres] at hrec ⊢
+        have e1 : t1 = t := g.2 (by simp) hrec
+        rw [e1]; exact h
+
+/-- undoing the log of the adoption loop gives back the tree the loop started from -/
+theorem undo_adoptAll {cfg : Cfg} (hr : Repaired cfg) (c : Nat) (base : Tree) :
+    ∀ (kids : List Nat) (t : Tree) (log : List (Nat × Str)), WFTree t → undoAdopt c t log = base →
+      (adoptAll cfg c t log kids).2.2 ≠ .recursionError →
+      undoAdopt c (adoptAll cfg c t log kids).1 (adoptAll cfg c t log kids).2.1 = base := by
+  intro kids
+  induction kids with
+  | nil => intro t log _ hb _; exact hb
+  | cons k r ih =>
+    intro t log h hb hrec
+    simp only [adoptAll] at hrec ⊢
+    rcases addChild_spec hr h c k none none with
+      ⟨e, he, hok⟩ | ⟨l', _, _, _, _, hne⟩ | ⟨l', he, hpk, hk, hl, hsl, hanc, hne⟩ | hr4
+    · cases e with
+      | ok =>
+        have hpk := hok rfl
+        simp only [he, hpk, if_true] at hrec ⊢
+        exact ih t log h hb hrec
+      | _ =>
+        simp only [he]
+        exact hb
+    · exact absurd rfl hne
+    · have hif : ¬ t.parent k = some c := by rw [hpk]; simp
+      simp only [he, hif, if_false] at hrec ⊢
+      apply ih _ _ (adopt_wf h hpk hk hl hsl hanc hne) _ hrec
+      simp only [undoAdopt, undo_adopt_one h hpk]
+      exact hb
+    · exfalso
+      generalize addChild cfg t c k none none = res at hr4 hrec
+      obtain ⟨t1, e⟩ := res
+      simp only at hr4; subst hr4
+      simp at hrec
+
+/-- `Workflow(label, *nodes)`: the invariant holds whatever happens, and with the rollback (F8) a
+constructor that raises leaves the tree before -/
+theorem newWorkflowWith_spec {cfg : Cfg} (hr : Repaired cfg) {t : Tree} (h : WFTree t) (c : Nat)
+    (l : Str) (kids : List Nat) (fails : Bool) (hp : t.parent c = none) :
+    ((newWorkflowWith cfg t c l kids fails).2 ≠ .recursionError →
+      WFTree (newWorkflowWith cfg t c l kids fails).1) ∧
+    (cfg.ctorRollback = true → (newWorkflowWith cfg t c l kids fails).2 ≠ .ok →
+      (newWorkflowWith cfg t c l kids fails).2 ≠ .recursionError →
+      (newWorkflowWith cfg t c l kids fails).1 = t) := by
+  have hg := newNode_good hr h c l none hp
+  cases hnn : newNode cfg t c l none with
+  | mk t0 e0 =>
+    rw [hnn] at hg
+    by_cases he0 : e0 = .ok
+    · subst he0
+      obtain ⟨h0, hshape⟩ := newNode_shape hr h hp hnn
+      have e0 : t0 = fresh t c l := by
+        rcases hshape with e | ⟨p, l', hnp, _⟩
+        · exact e
+        · cases hnp
+      subst e0
+      cases hall : adoptAll cfg c (fresh t c l) [] kids with
+      | mk t1 rest =>
+        obtain ⟨log, e⟩ := rest
+        have hwf := adoptAll_wf hr c kids (fresh t c l) [] h0
+        have hundo := undo_adoptAll hr c (fresh t c l) kids (fresh t c l) [] h0 rfl
+        rw [hall] at hwf hundo
+        simp only at hwf hundo
+        have hrest : ({ fresh t c l with label := updF (fresh t c l).label c (t.label c) } : Tree) = t := by
+          apply Tree.ext' <;> intros <;> try rfl
+          · simp only [fresh, updF]; split <;> simp_all
+          · simp only [fresh, updF]; split <;> simp_all
+        by_cases hacc : e = .ok ∧ fails = false
+        · have hval : newWorkflowWith cfg t c l kids fails = (t1, .ok) := by
+            simp only [newWorkflowWith, hnn, hall, hacc, and_self, if_true]
+          rw [hval]
+          exact ⟨fun _ => hwf (by rw [hacc.1]; decide), fun _ hne => absurd rfl hne⟩
+        · by_cases h8 : cfg.ctorRollback = true
+          · have hval : newWorkflowWith cfg t c l kids fails =
+                ({ undoAdopt c t1 log with label := updF (undoAdopt c t1 log).label c (t.label c) },
+                 if e = .ok then .setupError else e) := by
+              simp only [newWorkflowWith, hnn, hall, hacc, if_false, h8, if_true]
+            rw [hval]
+            have hfin : e ≠ .recursionError → ({ undoAdopt c t1 log with
+                label := updF (undoAdopt c t1 log).label c (t.label c) } : Tree) = t := by
+              intro hr'; rw [hundo hr']; exact hrest
+            refine ⟨fun hrec => ?_, fun _ _ hrec => ?_⟩
+            · have : e ≠ .recursionError := by
+                intro ee; subst ee; simp at hrec
+              rw [hfin this]; exact h
+            · have : e ≠ .recursionError := by
+                intro ee; subst ee; simp at hrec
+              exact hfin this
+          · have hval : newWorkflowWith cfg t c l kids fails =
+                (t1, if e = .ok then .setupError else e) := by
+              simp only [newWorkflowWith, hnn, hall, hacc, if_false, h8, Bool.false_eq_true]
+            rw [hval]
+            refine ⟨fun hrec => ?_, fun h8' => absurd h8' h8⟩
+            apply hwf
+            intro ee; subst ee; simp at hrec
+    · have hval : newWorkflowWith cfg t c l kids fails = (t, e0) := by
+        simp only [newWorkflowWith, hnn]
+      rw [hval]
+      exact ⟨fun _ => h, fun _ _ _ => rfl⟩
+
+/-! ## re-owning on `__setstate__` -/
+
+theorem updF_self {α} (f : Nat → α) (a : Nat) (x : α) (h : f a = x) : updF f a x = f := by
+  funext z; simp only [updF]; split
+  · rename_i e; rw [e, h]
+  · rfl
+
+theorem reownList_id (t : Tree) (c : Nat) : ∀ l : List (Str × Nat),
+    (∀ e ∈ l, t.parent e.2 = some c) → reownList t c l = t := by
+  intro l
+  induction l with
+  | nil => intro _; rfl
+  | cons e r ih =>
+    intro h
+    obtain ⟨k, v⟩ := e
+    have hv : t.parent v = some c := h (k, v) (by simp)
+    have : ({ t with parent := updF t.parent v (some c) } : Tree) = t := by
+      rw [updF_self _ _ _ hv]
+    simp only [reownList, this]
+    exact ih (fun e he => h e (List.mem_cons_of_mem _ he))
+
+/-- where both sides agree, telling the listed children who owns them changes nothing -/
+theorem reown_id {t : Tree} (h : WFTree t) : ∀ n c, reown n t c = t := by
+  intro n
+  induction n with
+  | zero => intro c; rfl
+  | succ n ih =>
+    intro c
+    simp only [reown]
+    rw [reownList_id t c _ (fun e he => ((h.agree c e.2 e.1).mp he).1)]
+    generalize t.children c = l
+    induction l with
+    | nil => rfl
+    | cons e r ihl => simp only [List.foldl_cons, ih]; exact ihl
 
 /-! ## operations and histories -/
 
@@ -1660,6 +1818,8 @@ yet; the user names current children (once each) as starting nodes -/
 def OpPre (t : Tree) : Op → Prop
   | .new c _ _ => t.parent c = none
   | .setStarting p l => (∀ s ∈ l, s ∈ vals (t.children p)) ∧ l.Nodup
+  | .newFail c _ _ => t.parent c = none
+  | .newWith c _ _ _ => t.parent c = none
   | _ => True
 
 def Op.isReplace : Op → Bool
@@ -1667,9 +1827,16 @@ def Op.isReplace : Op → Bool
   | .replaceLabel .. => true
   | _ => false
 
+/-- a constructor that raises after `Lexical.__init__` -/
+def Op.isCtorFail : Op → Bool
+  | .newFail .. => true
+  | .newWith .. => true
+  | _ => false
+
 /-- F1–F6: every entry point other than `replace_child` -/
 theorem step_good_nonreplace {cfg : Cfg} (hr : Repaired cfg) {t : Tree} (h : WFTree t) (op : Op)
-    (hpre : OpPre t op) (hnr : op.isReplace = false) : Good t (step cfg t op) := by
+    (hpre : OpPre t op) (hnr : op.isReplace = false) (hnc : op.isCtorFail = false) :
+    Good t (step cfg t op) := by
   cases op with
   | new c l np => exact newNode_good hr h c l np hpre
   | add p c lbl s => exact addChild_good hr h p c lbl s
@@ -1679,16 +1846,36 @@ theorem step_good_nonreplace {cfg : Cfg} (hr : Repaired cfg) {t : Tree} (h : WFT
   | removeLabel p l => exact removeChildLabel_good cfg h p l
   | replace p o n => simp [Op.isReplace] at hnr
   | replaceLabel p l n => simp [Op.isReplace] at hnr
+  | newFail c l np => simp [Op.isCtorFail] at hnc
+  | newWith c l kids f => simp [Op.isCtorFail] at hnc
   | setStarting p l =>
     exact ⟨fun _ => setStarting_wf h p l (fun s hs => mem_vals.mp (hpre.1 s hs)) hpre.2, fun hn => absurd rfl hn⟩
 
-/-- F1–F7: every entry point -/
-theorem step_good {cfg : Cfg} (hr : Repaired cfg) (h7 : cfg.replacePrecheck = true) {t : Tree}
-    (h : WFTree t) (op : Op) (hpre : OpPre t op) : Good t (step cfg t op) := by
+/-- F1–F7: every entry point but the constructors that raise after `Lexical.__init__` -/
+theorem step_good_nonctor {cfg : Cfg} (hr : Repaired cfg) (h7 : cfg.replacePrecheck = true) {t : Tree}
+    (h : WFTree t) (op : Op) (hpre : OpPre t op) (hnc : op.isCtorFail = false) :
+    Good t (step cfg t op) := by
   cases op with
   | replace p o n => exact replaceChild_good hr h7 h p o n
   | replaceLabel p l n => exact replaceChildLabel_good hr h7 h p l n
-  | _ => exact step_good_nonreplace hr h _ hpre rfl
+  | newFail c l np => simp [Op.isCtorFail] at hnc
+  | newWith c l kids f => simp [Op.isCtorFail] at hnc
+  | _ => exact step_good_nonreplace hr h _ hpre rfl rfl
+
+/-- F1–F8: every entry point -/
+theorem step_good {cfg : Cfg} (hr : Repaired cfg) (h7 : cfg.replacePrecheck = true)
+    (h8 : cfg.ctorRollback = true) {t : Tree} (h : WFTree t) (op : Op) (hpre : OpPre t op) :
+    Good t (step cfg t op) := by
+  cases op with
+  | newFail c l np =>
+    have s := newNodeFail_spec hr h c l np hpre
+    exact ⟨fun hok => absurd hok s.2.1, fun _ hrec => s.2.2 h8 hrec⟩
+  | newWith c l kids f =>
+    have s := newWorkflowWith_spec hr h c l kids f hpre
+    refine ⟨fun hok => ?_, fun hne hrec => s.2 h8 hne hrec⟩
+    have hok' : (newWorkflowWith cfg t c l kids f).2 = .ok := hok
+    exact s.1 (by rw [hok']; decide)
+  | _ => exact step_good_nonctor hr h7 h _ hpre rfl
 
 theorem replaceChildLabel_wf {cfg : Cfg} (hr : Repaired cfg) {t : Tree} (h : WFTree t) (p : Nat)
     (l : Str) (new : Nat) : (replaceChildLabel cfg t p l new).2 ≠ .recursionError →
@@ -1705,10 +1892,15 @@ limit was hit on the way) -/
 theorem step_wf {cfg : Cfg} (hr : Repaired cfg) {t : Tree} (h : WFTree t) (op : Op)
     (hpre : OpPre t op) (hrec : (step cfg t op).2 ≠ .recursionError) : WFTree (step cfg t op).1 := by
   by_cases hnr : op.isReplace = false
-  · have g := step_good_nonreplace hr h op hpre hnr
-    by_cases hok : (step cfg t op).2 = .ok
-    · exact g.1 hok
-    · rw [g.2 hok hrec]; exact h
+  · by_cases hnc : op.isCtorFail = false
+    · have g := step_good_nonreplace hr h op hpre hnr hnc
+      by_cases hok : (step cfg t op).2 = .ok
+      · exact g.1 hok
+      · rw [g.2 hok hrec]; exact h
+    · cases op with
+      | newFail c l np => exact (newNodeFail_spec hr h c l np hpre).1 hrec
+      | newWith c l kids f => exact (newWorkflowWith_spec hr h c l kids f hpre).1 hrec
+      | _ => simp [Op.isCtorFail] at hnc
   · cases op with
     | replace p o n => exact replaceChild_wf hr h p o n hrec
     | replaceLabel p l n => exact replaceChildLabel_wf hr h p l n hrec
